@@ -21,6 +21,11 @@ const c19BadEOL = "\tMOV AX,1\n\tMOV BX,\n\tHLT\n"    // the parse error is AT t
 const c19BadStr = "\tMOV AX,1\n\tDB \"hello\n\tHLT\n" // unterminated string
 const c19Obj = "[FORMAT \"WCOFF\"]\n[INSTRSET \"i486p\"]\n[BITS 32]\n[FILE \"obj.nas\"]\n\tGLOBAL _f1\n[SECTION .text]\n_f1:\n\tMOV EAX,1\n\tRET\n"
 
+// sources that parse but contain a statement the code generator refuses (an undefined label as memory address): whether
+// such a run counts as failed is C07's business; IF it exits non-zero the output file must not hold a partial image
+const c19Undef = "\tORG 0x7c00\n\tMOV AX,1\n\tMOV AL,[cursro]\n\tADD AX,2\n\tDB \"tail\",0\n"
+const c19UndefObj = "[FORMAT \"WCOFF\"]\n[BITS 32]\n[FILE \"u.nas\"]\n\tGLOBAL _f\n[SECTION .text]\n_f:\n\tMOV EAX,[nolabel]\n\tRET\n"
+
 var c19Old = bytes.Repeat([]byte("OLD!"), 64)
 var lineColRe = regexp.MustCompile(`\b\d+:\d+\b`)
 
@@ -45,7 +50,7 @@ func c19Model(argv []string) c19Expect {
 	src, dst := pos[0], pos[1]
 	e := c19Expect{dst: dst}
 	switch src {
-	case "valid.nas", "empty.nas", "obj.nas":
+	case "valid.nas", "empty.nas", "obj.nas", "undef.nas", "undef_obj.nas":
 	case "bad.nas", "bad_eol.nas", "bad_str.nas":
 		e.exit, e.lineCol, e.wantFile, e.why = "nonzero", true, "intact_or_empty_or_absent", "parse error: non-zero exit with line:col"
 		return e
@@ -79,6 +84,9 @@ func c19Model(argv []string) c19Expect {
 		}
 	default:
 		e.exit, e.wantFile, e.why = "0", "bytes", "success"
+		if strings.HasPrefix(src, "undef") {
+			e.exit, e.wantFile, e.why = "any", "on_failure_intact", "a statement is refused by the code generator: exit status not specified here, but no partial image after a non-zero exit"
+		}
 	}
 	return e
 }
@@ -91,13 +99,15 @@ func c19Setup(dir string) {
 	os.WriteFile(filepath.Join(dir, "bad_eol.nas"), []byte(c19BadEOL), 0o644)
 	os.WriteFile(filepath.Join(dir, "bad_str.nas"), []byte(c19BadStr), 0o644)
 	os.WriteFile(filepath.Join(dir, "obj.nas"), []byte(c19Obj), 0o644)
+	os.WriteFile(filepath.Join(dir, "undef.nas"), []byte(c19Undef), 0o644)
+	os.WriteFile(filepath.Join(dir, "undef_obj.nas"), []byte(c19UndefObj), 0o644)
 	os.WriteFile(filepath.Join(dir, "existing.bin"), c19Old, 0o644)
 }
 
 func c19Custom(r *core.Run, tier string) {
 	t0 := time.Now()
 	p := r.Cfg.Pool
-	tokens := []string{"valid.nas", "new.bin", "existing.bin", "missing.nas", "bad.nas", "empty.nas", "sub", "nodir/out.bin", "/dev/full", "-v", "--help", "obj.nas", "bad_eol.nas", "bad_str.nas"}
+	tokens := []string{"valid.nas", "new.bin", "existing.bin", "missing.nas", "bad.nas", "empty.nas", "sub", "nodir/out.bin", "/dev/full", "-v", "--help", "obj.nas", "bad_eol.nas", "bad_str.nas", "undef.nas", "undef_obj.nas"}
 	maxLen := 3
 	if tier == "thorough" {
 		maxLen = 4
@@ -180,7 +190,7 @@ func c19Custom(r *core.Run, tier string) {
 				if exp.dst != "" && !strings.HasPrefix(exp.dst, "/dev/") {
 					b, err := os.ReadFile(filepath.Join(dir, exp.dst))
 					orig := map[string][]byte{"existing.bin": c19Old, "valid.nas": []byte(c19Valid), "bad.nas": []byte(c19Bad), "empty.nas": {},
-						"obj.nas": []byte(c19Obj), "bad_eol.nas": []byte(c19BadEOL), "bad_str.nas": []byte(c19BadStr)}[exp.dst]
+						"obj.nas": []byte(c19Obj), "bad_eol.nas": []byte(c19BadEOL), "bad_str.nas": []byte(c19BadStr), "undef.nas": []byte(c19Undef), "undef_obj.nas": []byte(c19UndefObj)}[exp.dst]
 					switch exp.wantFile {
 					case "bytes":
 						want := validBytes
@@ -219,7 +229,7 @@ func c19Custom(r *core.Run, tier string) {
 	wg.Wait()
 	r.AddSample(map[string]any{"argv": []string{"valid.nas", "existing.bin"}, "expected": "exit 0, existing.bin == assembled bytes"})
 	r.AddSample(map[string]any{"argv": []string{"bad.nas", "existing.bin"}, "expected": "non-zero exit, line:col message, existing.bin intact or empty"})
-	r.AddCustom("argv_vectors", fmt.Sprintf("ALL argument vectors of length 0..%d over a 14-token alphabet of path situations and flags (valid/missing/unparsable/empty source, directory, new/existing output, output in a missing directory, /dev/full, -v, --help), each spawned as the real command in a freshly prepared directory; oracle: model of the command-line contract (exit 16/17/0/non-zero, position in the parse-error message, output file == API bytes on success, no partial image after a failure); non-trivial = successful assemblies", maxLen),
+	r.AddCustom("argv_vectors", fmt.Sprintf("ALL argument vectors of length 0..%d over a 16-token alphabet of path situations and flags (valid/missing/unparsable/empty source, directory, new/existing output, output in a missing directory, /dev/full, -v, --help), each spawned as the real command in a freshly prepared directory; oracle: model of the command-line contract (exit 16/17/0/non-zero, position in the parse-error message, output file == API bytes on success, no partial image after a failure); non-trivial = successful assemblies", maxLen),
 		map[string]any{"tokens": tokens, "max_len": maxLen}, int64(len(argvs))+1, int64(len(argvs)), spawned, int64(outcomes["exit0"]), len(outcomes), true, time.Since(t0).Seconds())
 
 	// CLI vs in-process API on the program pool
@@ -239,6 +249,7 @@ func c19Custom(r *core.Run, tier string) {
 	r.AddCustom("cli_vs_api", "the 12-program pool through the real command and through the in-process API: identical bytes, parse failures agree", nil, int64(len(pool))+1, int64(len(pool)), int64(len(pool)), int64(len(pool)), 1, true, time.Since(t1).Seconds())
 
 	c19Charsets(r, tier)
+	c19Positions(r)
 	c19LongAndMixed(r)
 }
 
